@@ -18,6 +18,13 @@ PROP = "C16"
 GROUP = 12  # schedules per workload (alone references are shared inside a group)
 
 
+def prepare() -> None:
+    """Called once by the driver before the worker pool is forked (the workers inherit it)."""
+    from . import reach
+
+    reach.boosts()
+
+
 def make_seeds(bseed: int, n: int) -> List[int]:
     return [(kit.H(bseed, PROP, i // GROUP) << 4) | (i % GROUP) for i in range(n)]
 
@@ -36,6 +43,11 @@ def _gen_thread(rw: Any, tid: int, cfg: Dict[str, Any], shape_seed: Optional[int
     else:
         ecfg = gen.gen_env(rw, runner)
     decls = gen.decl_map(ecfg["decls"])
+    if cfg["jq_mode"]:
+        # the CLI's configuration: the package name is bound to a document and the document's
+        # fields are *not* declared -- names are found by navigating into the value
+        ecfg = dict(ecfg, decls="both", package="p")
+        decls = gen.decl_map("pkg")  # what the expressions and bindings are generated over
     ops: List[Dict[str, Any]] = [{"op": "E", "id": 0, "cfg": ecfg}]
     n_prog = rw.choice([1, 1, 1, 2])
     for p in range(n_prog):
@@ -47,10 +59,13 @@ def _gen_thread(rw: Any, tid: int, cfg: Dict[str, Any], shape_seed: Optional[int
             host = host + ["size"]  # this thread overrides the built-in size(); others use it
         bound = bool(host) and rw.random() < 0.85  # sometimes the name is called but not bound
         text = gen.gen_expr(er, decls, salt=text_salt, depth=er.choice([1, 2, 2, 3, 3, 4]),
-                            invalid_share=0.02, host=[h for h in host if h != "size"],
+                            invalid_share=cfg.get("invalid_share", 0.02),
+                            host=[h for h in host if h != "size"],
                             deep_share=cfg["deep_share"],
                             features=cfg["features"] + (["size"] if cfg["shadow_size"] else [])
-                            + (["host"] if [h for h in host if h != "size"] else []))
+                            + (["host"] if [h for h in host if h != "size"] else [])
+                            + (["pkgname"] if cfg["jq_mode"] else []),
+                            bias=cfg.get("bias", 0.7))
         ops.append({"op": "K", "id": p, "env": 0, "text": text, "host": host})
         fspec = None
         if host and bound:
@@ -96,6 +111,28 @@ def generate(seed: int, tier: str = "quick") -> Dict[str, Any]:
         # constructs featured in every thread's expressions of this workload (swarm testing)
         "features": rc.sample(sorted(gen.FEATURES), rc.choice([0, 0, 1, 1, 2])),
     }
+    # ingredients whose implementation touches lasting state in the tree under test are featured
+    # in 40 % of the workloads (sim/reach.py); the draws are made whether or not there are any
+    boost_draw, boost_pick = rc.random(), rc.random()
+    from . import reach
+
+    boosted = reach.boosts()
+    if boosted and boost_draw < 0.4:
+        items = sorted(boosted)
+        total = sum(boosted[i] for i in items)
+        acc, item = 0.0, items[-1]
+        for i in items:
+            acc += boosted[i] / total
+            if boost_pick < acc:
+                item = i
+                break
+        cfg["boosted"] = item
+        if item in gen.FEATURES:
+            cfg["features"] = [item] + [f for f in cfg["features"] if f != item][:1]
+        elif item == "host":
+            cfg["host_share"] = 0.8
+        else:
+            cfg[item] = True
     if cfg["jq_mode"]:
         cfg["same_env"] = {"runner": "C", "decls": "pkg", "package": "p"}
     shape_seed = kit.H(wseed, "shape") if (cfg["same_shape"] or cfg["same_text"]) else None
@@ -286,6 +323,12 @@ def _alone(thread: Dict[str, Any], pre: Optional[str], trace_lark: bool) -> Dict
     return out
 
 
+def _alone_uncached(thread: Dict[str, Any]) -> Dict[str, Any]:
+    """One thread run alone, outside the reference cache (used by sim/reach.py's probes)."""
+    res = run_threads([dict(thread, tid=0)], {"kind": "serial"}, None, False, 1000, 50_000_000)
+    return {"hot": res["hot_profile"]["0"], "errors": res["errors"]}
+
+
 def _q(site: str) -> str:
     parts = site.split(":")
     return parts[1] if len(parts) >= 2 else site
@@ -329,7 +372,14 @@ def execute(trace: Dict[str, Any]) -> Dict[str, Any]:
         mode, _, arg = policy["focus"].partition(":")
         if mode == "rank":
             # writers of lasting state first, then readers, then the static list; rarest first
-            ranked = sorted(cands, key=lambda q: (-score.get(q, 0), lines.get(q, 0), q))
+            # ... and before all of that, the functions that few constructs reach (sim/reach.py)
+            from . import reach
+
+            reach.boosts()
+            pop = reach.POPULARITY
+            n_items = len(gen.FEATURES) + len(reach.FLAGS)
+            ranked = sorted(cands, key=lambda q: (pop.get(q, 0) > n_items // 3, -score.get(q, 0),
+                                                  lines.get(q, 0), q))
             policy = dict(policy, focus=ranked[int(arg) % len(ranked)])
         else:
             pick = _random.Random(int(arg))
